@@ -2,13 +2,14 @@
 (* Every shape of the bounded family below; ids are assigned in preorder by the harness/export (Number).        *)
 EXTENDS Scan, Json, SequencesExt
 CONSTANTS OutFile, Depth
-LeafTags == {"none", "value", "prop", "cust", "foreign"}
+LeafTags == {"none", "value", "prop", "cust", "foreign", "prefix", "wire", "func", "logger"}
 Leaf(t, e) == [k |-> "leaf", tag |-> t, anon |-> FALSE, ptr |-> FALSE, exp |-> e, kids |-> <<>>, id |-> 0]
 Str(a, t, p, e, ks) == [k |-> "struct", tag |-> t, anon |-> a, ptr |-> p, exp |-> e, kids |-> ks, id |-> 0]
 Leaves == {Leaf(t, TRUE) : t \in LeafTags}
 \* the compile-time block: a struct with an unexported tagged field and an exported tagged field
 BlkKids == <<Leaf("value", FALSE), Leaf("value", TRUE)>>
-Kids1 == {<<a>> : a \in Leaves} \cup {<<a, b>> : a \in Leaves, b \in {Leaf("value", TRUE), Leaf("none", TRUE), Leaf("cust", TRUE)}} \cup {BlkKids}
+CoreLeaves == {Leaf(t, TRUE) : t \in {"none", "value", "prop", "cust", "foreign"}}
+Kids1 == {<<a>> : a \in Leaves} \cup {<<a, b>> : a \in CoreLeaves, b \in {Leaf("value", TRUE), Leaf("none", TRUE), Leaf("cust", TRUE), Leaf("wire", TRUE)}} \cup {BlkKids}
 S1 == {Str(a, t, p, TRUE, ks) : a \in BOOLEAN, t \in {"none", "cust", "foreign"}, p \in BOOLEAN, ks \in Kids1}
       \cup {Str(TRUE, "none", FALSE, FALSE, BlkKids)}                         \* an embed of an unexported type
 S1core == {s \in S1 : s.tag = "none" /\ ~s.ptr /\ s.exp}
